@@ -166,7 +166,7 @@ def make_case(tier, key):
     mname, group = key
     names = pass_names()
     if group == "contract":
-        ranges = dict(p=(0, len(names) - 1), mode=(0, 2))
+        ranges = dict(p=(0, len(names) - 1), mode=(0, 3))
     else:
         ranges = dict(p=(0, len(ANALYSIS) - 1), big=(0, 4000), lazy=(-1, 3), api=(0, 1), inmask=(0, 7))
 
@@ -199,7 +199,7 @@ def run_contract(mname, P):
     except Exception as e:  # noqa: BLE001
         return True, dict(problems=[], skipped=f"model does not serialize: {type(e).__name__}")
     p = tab[pname]()
-    obs = {"pass": pname, "mode": ["direct", "functionalized", "manager"][mode]}
+    obs = {"pass": pname, "mode": ["direct", "functionalized", "manager", "functional manager applied to its own output"][mode]}
     try:
         if mode == 0:
             res = p(m)
@@ -237,6 +237,21 @@ def run_contract(mname, P):
             if proto_bytes(m) != b0:
                 problems.append("functionalized pass changed its input model")
             final = res.model
+        elif mode == 3:
+            # a manager made of functional passes is not in place: every application returns a new model, also at the fixpoint
+            pm = ir.passes.PassManager([ir.passes.functionalize(p)], steps=2, early_stop=True)
+            if pm.in_place:
+                problems.append("identity: a manager of functional passes declares itself in-place")
+            cur, prev = m, None
+            for rnd in range(3):
+                res = pm(cur)
+                if res.model is cur:
+                    problems.append(f"identity: functional manager returned its input object in round {rnd + 1}")
+                if proto_bytes(cur) != (b0 if rnd == 0 else prev):
+                    problems.append(f"functional manager changed its input model in round {rnd + 1}")
+                prev = proto_bytes(res.model)
+                cur = res.model
+            final = cur
         else:
             pm = ir.passes.PassManager([p], steps=bound + 1, early_stop=True)
             res = pm(m)
@@ -349,7 +364,7 @@ def run(chk, tier):
         "pre-state variation: a symbolic bit mask selects which of the first 3 initializers are also listed as graph inputs",
         "every explored path is re-executed natively with the path's witness and must give the same observation",
     )
-    chk.bounds = dict(models=list(models.MODELS), passes=pass_names(), invocation=["direct + repeated application", "functionalize()", "PassManager(steps=bound+1)"],
+    chk.bounds = dict(models=list(models.MODELS), passes=pass_names(), invocation=["direct + repeated application", "functionalize()", "PassManager(steps=bound+1)", "PassManager([functionalize(p)]) applied three times to its own output"],
                       fixpoint_bound="#nodes + #values + #functions + 2", faults=dict(big="0..4000", lazy="-1..3", api="0..1"))
     chk.not_decided += ["pass-manager compositions of several different passes (C05 runs pairs/triples for semantics)", "models outside the family"]
     import logging
